@@ -100,6 +100,7 @@ proof fn flags400_facts(ym: int)
         ("let days = (year1_div_400", "        proof { dn_range_consts(); dn_cycle(v_year(self), v_ord(self)); dn_cycle(v_year(rhs), v_ord(rhs)); dn_cycle(MIN_Y(), 1); dn_cycle(MAX_Y(), 365); in_range(v_year(self), v_ord(self)); in_range(v_year(rhs), v_ord(rhs)); }")])
     for n in ['checked_add_days', 'checked_sub_days', 'checked_add_signed', 'checked_sub_signed']:
         u.prove(F, n, IMPL, cid='NaiveDate::' + n, hints=[('{', "        proof { dn_range_consts(); in_range(v_year(self), v_ord(self)); }")] if False else [])
+    u.prove(F, 'from_num_days_from_ce', IMPL, cid='NaiveDate::from_num_days_from_ce')
     # operator forms: checked form + expect (documented to panic exactly when the checked form refuses = the precondition)
     for impl_hdr, fn, cid in [('impl Add<TimeDelta> for NaiveDate {', 'add', 'Add__add'), ('impl Sub<TimeDelta> for NaiveDate {', 'sub', 'Sub__sub'),
                               ('impl Add<Days> for NaiveDate {', 'add', 'Add_Days__add'), ('impl Sub<Days> for NaiveDate {', 'sub', 'Sub_Days__sub'),
